@@ -25,6 +25,9 @@
 #include <sys/syscall.h>
 #include <new>
 #include <cwchar>
+#include <clocale>
+#include <ctime>
+#include <cstdlib>
 struct C20Shared;  // opaque here: this translation unit must not instantiate any library code (see body.cpp)
 
 using vf::Ctx;
@@ -279,12 +282,78 @@ size_t vfw_wcslen(const wchar_t *s)
     sx::acc(s, (n + 1) * sizeof(wchar_t), 0);
     return n;
 }
+// process-wide state kept inside libc: a call that changes it is a write to a location every thread shares, a call whose
+// result depends on it is a read (so a library that switches the locale around a conversion races with every other
+// conversion, whatever the locale was)
+char g_tok_locale[8], g_tok_environ[8], g_tok_libc_static[8];
+char *vfw_setlocale(int cat, const char *loc)
+{
+    sx::acc(g_tok_locale, 1, loc ? 1 : 0);
+    if (loc) sx::acc(loc, strlen(loc) + 1, 0);
+    return setlocale(cat, loc);
+}
+struct lconv *vfw_localeconv()
+{
+    sx::acc(g_tok_locale, 1, 0);
+    return localeconv();
+}
+char *vfw_getenv(const char *n)
+{
+    sx::acc(g_tok_environ, 1, 0);
+    return getenv(n);
+}
+int vfw_setenv(const char *n, const char *v, int o)
+{
+    sx::acc(g_tok_environ, 1, 1);
+    return setenv(n, v, o);
+}
+int vfw_putenv(char *s)
+{
+    sx::acc(g_tok_environ, 1, 1);
+    return putenv(s);
+}
+int vfw_unsetenv(const char *n)
+{
+    sx::acc(g_tok_environ, 1, 1);
+    return unsetenv(n);
+}
+char *vfw_strtok(char *s, const char *d)
+{
+    sx::acc(g_tok_libc_static, 1, 1);
+    return strtok(s, d);
+}
+int vfw_rand()
+{
+    sx::acc(g_tok_libc_static + 1, 1, 1);
+    return rand();
+}
+void vfw_srand(unsigned v)
+{
+    sx::acc(g_tok_libc_static + 1, 1, 1);
+    srand(v);
+}
+char *vfw_strerror(int e)
+{
+    sx::acc(g_tok_libc_static + 2, 1, 1);
+    return strerror(e);
+}
+struct tm *vfw_localtime(const time_t *t)
+{
+    sx::acc(g_tok_libc_static + 3, 1, 1);
+    return localtime(t);
+}
+struct tm *vfw_gmtime(const time_t *t)
+{
+    sx::acc(g_tok_libc_static + 3, 1, 1);
+    return gmtime(t);
+}
 int vfw_snprintf(char *buf, size_t size, const char *fmt, ...)
 {
     va_list ap;
     va_start(ap, fmt);
     int r = vsnprintf(buf, size, fmt, ap);
     va_end(ap);
+    sx::acc(g_tok_locale, 1, 0);
     sx::acc(fmt, strlen(fmt) + 1, 0);
     if (size) sx::acc(buf, (size_t)r + 1 < size ? (size_t)r + 1 : size, 1);
     return r;
@@ -307,6 +376,7 @@ STRTO(strtoll, long long)
 STRTO(strtoull, unsigned long long)
 double vfw_strtod(const char *s, char **e)
 {
+    sx::acc(g_tok_locale, 1, 0);
     sx::acc(s, strlen(s) + 1, 0);
     char *ee;
     double r = strtod(s, &ee);
@@ -318,6 +388,7 @@ double vfw_strtod(const char *s, char **e)
 }
 float vfw_strtof(const char *s, char **e)
 {
+    sx::acc(g_tok_locale, 1, 0);
     sx::acc(s, strlen(s) + 1, 0);
     char *ee;
     float r = strtof(s, &ee);
@@ -742,8 +813,12 @@ static bool run_and_check(Ctx &c, const Program &P, const std::vector<Step> &sch
                     if (!(p.w || q.w)) continue;
                     if (p.a < q.a + q.n && q.a < p.a + p.n) {
                         const StaticSym *ss = static_at(p.a);
-                        std::string what = ss ? "library static " + demangled(ss->name) : strf("address %p", (void *)p.a);
-                        c.fail(strf("c20:data-race:%s", ss ? demangled(ss->name).c_str() : "shared-memory"),
+                        const char *tok = p.a >= (uintptr_t)g_tok_locale && p.a < (uintptr_t)g_tok_locale + 8     ? "process-locale(setlocale)"
+                                          : p.a >= (uintptr_t)g_tok_environ && p.a < (uintptr_t)g_tok_environ + 8 ? "process-environment(setenv)"
+                                          : p.a >= (uintptr_t)g_tok_libc_static && p.a < (uintptr_t)g_tok_libc_static + 8 ? "libc-internal-static(strtok/rand/strerror/localtime)"
+                                                                                                                   : nullptr;
+                        std::string what = ss ? "library static " + demangled(ss->name) : tok ? std::string(tok) : strf("address %p", (void *)p.a);
+                        c.fail(strf("c20:data-race:%s", ss ? demangled(ss->name).c_str() : tok ? tok : "shared-memory"),
                                strf("%s: thread %d %s and thread %d %s %s without synchronisation", where().c_str(), i, p.w ? "writes" : "reads", j,
                                     q.w ? "writes" : "reads", what.c_str()));
                         ok = false;
